@@ -182,6 +182,19 @@ CLAIMED = {
               "and table-collection keywords are not in the grammar."),
         technique="TLC model checking of print/parse on the lexeme model + TLC-generated decks round-tripped through the real writer and parser",
     ),
+    "C05": dict(
+        category="model_checking",
+        text=("Restart.tla: saving report steps into a unified file (keeps earlier steps, drops later ones) or separate files, loading "
+              "a step returns what was saved for it, the restarted schedule agrees with the original from the restart step on; "
+              "model-checked.  Trace_Restart validates the real library: harness/rstio builds TLC-generated models "
+              "(StateFeatures.tla), produces a schedule-consistent random simulator state (out::Summary::eval, UDQ evaluation), "
+              "saves steps 1..n with RestartIO::save in every file flavour, loads steps back (RestartIO::load, RstState + "
+              "Action::State / UDQState::load_rst) and builds the restarted Schedule (RESTART + SKIPREST)."),
+        design_ref="DESIGN.md section 5, C05",
+        note=("Trusted: TLC; the state generator and the attribute-level schedule projection in the harness.  METRIC units only; network, "
+              "aquifers, group controls beyond production targets and guide rates are not compared."),
+        technique="TLC model checking of the save/load design + TLC trace validation of RestartIO::save/load and the restarted Schedule on TLC-generated models",
+    ),
     "C06": dict(
         category="model_checking",
         text=("Compdat.tla: the connection a COMPDAT record creates, as terms for CF, Kh, r0, rw over the cell and the record, "
